@@ -165,6 +165,9 @@ func (s *MemoryStore) Enqueue(env Envelope) error {
 	now := s.nowFn()
 	s.maybePruneLocked(now)
 
+	// Evictions made for this enqueue are undone if the enqueue is refused
+	// afterwards (mirrors the SQLite transaction rollback).
+	var dropped []*Envelope
 	if s.maxDepth > 0 {
 		activeCount := s.activeCountLocked()
 		activeDeliveredCount := s.activeDeliveredCountLocked()
@@ -172,15 +175,19 @@ func (s *MemoryStore) Enqueue(env Envelope) error {
 			if s.dropPolicy != "drop_oldest" {
 				return ErrQueueFull
 			}
-			if !s.dropOldestQueuedLocked() {
+			evicted := s.dropOldestQueuedLocked()
+			if evicted == nil {
+				s.restoreDroppedLocked(dropped)
 				return ErrQueueFull
 			}
+			dropped = append(dropped, evicted)
 			activeCount = s.activeCountLocked()
 			activeDeliveredCount = s.activeDeliveredCountLocked()
 		}
 	}
 
 	if pressure := s.memoryPressureStatusLocked(); pressure.Active {
+		s.restoreDroppedLocked(dropped)
 		s.memoryPressureRejects++
 		return ErrMemoryPressure
 	}
@@ -189,6 +196,7 @@ func (s *MemoryStore) Enqueue(env Envelope) error {
 		env.ID = newHexID("evt_")
 	}
 	if _, exists := s.items[env.ID]; exists {
+		s.restoreDroppedLocked(dropped)
 		return ErrEnvelopeExists
 	}
 	if env.State == "" {
@@ -291,18 +299,24 @@ func (s *MemoryStore) EnqueueBatch(items []Envelope) (int, error) {
 		prepared = append(prepared, &cpy)
 	}
 
-	// Handle depth overflow with drop_oldest.
+	// Handle depth overflow with drop_oldest. Evictions are undone if the
+	// batch is refused afterwards (all-or-nothing, like the SQLite transaction).
+	var dropped []*Envelope
 	if s.maxDepth > 0 {
 		for activeCount+len(prepared) > s.maxDepth || (s.deliveredRetentionMaxAge > 0 && activeDeliveredCount+len(prepared) > s.maxDepth) {
-			if !s.dropOldestQueuedLocked() {
+			evicted := s.dropOldestQueuedLocked()
+			if evicted == nil {
+				s.restoreDroppedLocked(dropped)
 				return 0, ErrQueueFull
 			}
+			dropped = append(dropped, evicted)
 			activeCount = s.activeCountLocked()
 			activeDeliveredCount = s.activeDeliveredCountLocked()
 		}
 	}
 
 	if pressure := s.memoryPressureStatusLocked(); pressure.Active {
+		s.restoreDroppedLocked(dropped)
 		s.memoryPressureRejects++
 		return 0, ErrMemoryPressure
 	}
@@ -459,7 +473,9 @@ func envelopeRetainedBytes(env *Envelope) int64 {
 	return size
 }
 
-func (s *MemoryStore) dropOldestQueuedLocked() bool {
+// dropOldestQueuedLocked evicts the oldest queued item and returns it, or nil
+// if there is no queued item to evict.
+func (s *MemoryStore) dropOldestQueuedLocked() *Envelope {
 	for _, id := range s.order {
 		env := s.items[id]
 		if env == nil {
@@ -468,9 +484,24 @@ func (s *MemoryStore) dropOldestQueuedLocked() bool {
 		if env.State != StateQueued {
 			continue
 		}
-		return s.evictLocked(id, memoryEvictionReasonDropOldest)
+		if !s.evictLocked(id, memoryEvictionReasonDropOldest) {
+			return nil
+		}
+		return env
 	}
-	return false
+	return nil
+}
+
+// restoreDroppedLocked puts back items evicted by dropOldestQueuedLocked for an
+// enqueue that was refused in the end. The order index still holds their ids,
+// so they keep their position.
+func (s *MemoryStore) restoreDroppedLocked(dropped []*Envelope) {
+	for _, env := range dropped {
+		s.items[env.ID] = env
+		if s.evictionsTotalByReason[memoryEvictionReasonDropOldest] > 0 {
+			s.evictionsTotalByReason[memoryEvictionReasonDropOldest]--
+		}
+	}
 }
 
 func (s *MemoryStore) maybePruneLocked(now time.Time) {
